@@ -262,7 +262,7 @@ CLAIMED = {
              "log is a concatenation of COMPLETE lock tenures (one whole record of one writer, or one whole reply flush) followed by the part of "
              "the current holder's tenure only; per writer, payloads in log order ++ record in progress ++ unwritten data = the data it was "
              "given; C10_writers_complete, C10_writer_waits, C10_request_waits. Tie: 1..3 writers incl. clones + reply flushing polled in "
-             "scripted orders over cutting/Pending transports, through model and crate.",
+             "scripted orders over cutting/Pending transports, through model and crate. WHOLE CONNECTION: C10_connection_framing - on a transport without write faults, for every client, buffer size, fuel and handler scripts (abandoned reads included) the transport log of Token::run is at every end of the run a prefix of a byte string that decodes completely into records, and decodes completely when the task returns (no shutdown, no abandoned reads): replies, stream records and epilogues never interleave, not even in the F6 scenario.",
         design="6/C10", technique="Coq proof (write loops: exact bytes for every transport split; inductive lock-tenure invariant over all poll orders) + differential execution of scripted multi-writer poll orders with record-decoding oracle",
         note="futures-util Mutex modelled as an owner field taken by whoever polls first while free (no hand-off, no fairness claimed); writers are created before the schedule starts."),
     "C12": dict(
